@@ -171,11 +171,17 @@ func propC03Tree(t *rapid.T) {
 	}
 	// the recorder emulates an encoder that rejects unencodable reflected values,
 	// so the JSON-oriented expectation (<key>Error) applies unchanged
+	inputGuardOn, inputGuards = true, nil
+	defer func() { inputGuardOn, inputGuards = false, nil }()
 	fields := fieldsOf(specs)
 	got, p := record(fields...)
 	if p != nil {
 		t.Fatalf("AddTo panicked: %v\nfields: %s", p, renderSpecs(specs))
 	}
+	if e := checkInputGuards(); e != "" {
+		t.Fatalf("%s\nfields: %s", e, renderSpecs(specs))
+	}
+	inputGuardOn = false
 	want := expectRecorded(specs)
 	if e := cmpRec("$", want.root, got, false); e != "" {
 		t.Fatalf("encoder did not receive the original values: %s\n recorded: %s\nfields: %s", e, clipS(renderR(got)), renderSpecs(specs))
@@ -300,11 +306,17 @@ var c03ScalarKinds = append([]string{"bin", "slice", "slice", "slice", "nilptr",
 func propC03Scalar(t *rapid.T) {
 	kind := rapid.SampledFrom(c03ScalarKinds).Draw(t, "kind")
 	s := genScalarSpec(t, kind)
+	inputGuardOn, inputGuards = true, nil
+	defer func() { inputGuardOn, inputGuards = false, nil }()
 	f := s.Field()
 	got, p := record(f)
 	if p != nil {
 		t.Fatalf("AddTo panicked: %v for %s", p, s.Render())
 	}
+	if e := checkInputGuards(); e != "" {
+		t.Fatalf("%s\nfield: %s", e, s.Render())
+	}
+	inputGuardOn = false
 	want := expectRecorded([]*Spec{s})
 	if e := cmpRec("$", want.root, got, false); e != "" {
 		t.Fatalf("encoder did not receive the original value: %s\n recorded: %s\nfield: %s", e, clipS(renderR(got)), s.Render())
@@ -403,7 +415,45 @@ func propC03AnyFallback(t *rapid.T) {
 	statCase("C03", true, fmt.Sprintf("anyfallback|%T", v), "Any fallback to Reflect")
 }
 
+// propC03AnyMulti: dynamic types implementing several of the interfaces zap.Any
+// looks for. Any must pick the representation of the corresponding typed
+// constructor in its documented order (ObjectMarshaler, ArrayMarshaler, the
+// concrete types, error, fmt.Stringer, reflection last) and deliver what that
+// constructor delivers.
+func propC03AnyMulti(t *rapid.T) {
+	v, want := genMultiIface(t)
+	key := genKey().Draw(t, "key")
+	fa := zap.Any(key, v)
+	var ft zapcore.Field
+	switch want {
+	case "object":
+		ft = zap.Object(key, v.(zapcore.ObjectMarshaler))
+	case "array":
+		ft = zap.Array(key, v.(zapcore.ArrayMarshaler))
+	case "error":
+		ft = zap.NamedError(key, v.(error))
+	case "stringer":
+		ft = zap.Stringer(key, v.(fmt.Stringer))
+	}
+	if fa.Type != ft.Type || fa.Key != key {
+		t.Fatalf("zap.Any(%T) chose field type %v (key %q); the corresponding typed constructor (%s) gives %v", v, fa.Type, fa.Key, want, ft.Type)
+	}
+	ra, p1 := record(fa)
+	rt, p2 := record(ft)
+	if p1 != nil || p2 != nil {
+		t.Fatalf("AddTo panicked: %v %v", p1, p2)
+	}
+	if renderR(ra) != renderR(rt) {
+		t.Fatalf("zap.Any(%T) delivers %s, the %s constructor delivers %s", v, renderR(ra), want, renderR(rt))
+	}
+	if eq, p := equalsNoPanic(fa, ft); p != nil || !eq {
+		t.Fatalf("Any(%T) vs %s constructor: Equals=%v panic=%v", v, want, eq, p)
+	}
+	statCase("C03", true, fmt.Sprintf("anymulti|%T", v), "Any on a type implementing several interfaces")
+}
+
 func TestC03Tree(t *testing.T)        { rapid.Check(t, propC03Tree) }
+func TestC03AnyMulti(t *testing.T)    { rapid.Check(t, propC03AnyMulti) }
 func TestC03Scalar(t *testing.T)      { rapid.Check(t, propC03Scalar) }
 func TestC03AnyFallback(t *testing.T) { rapid.Check(t, propC03AnyFallback) }
 
